@@ -279,6 +279,16 @@ func TestVerifNATExhaust(t *testing.T) {
 			}
 			// the first remote answers to the very first external address: long expired (short lifetime)
 			r.in([2]int{20, 1}, r.seen[0])
+			// early flows resume after the port range has wrapped: their old ports belong to others now
+			for i := 0; i < 120; i++ {
+				dst := [2]int{20, 1 + i}
+				r.out(src, dst)
+				if i%3 == 0 {
+					r.in([2]int{20, 16300 + i/3}, r.seen[len(r.seen)-1-rng.Intn(20)])
+					r.out(src, [2]int{20, 16300 + i/3}) // a recent flow sends again
+				}
+				time.Sleep(time.Millisecond)
+			}
 		})
 	}
 	t.Logf("events=%d", tr.N)
